@@ -4,6 +4,7 @@ import BSModel.Proofs.CopyEq
 import BSModel.Proofs.CopyEdit
 import BSModel.Proofs.CopyCanon
 import BSModel.Proofs.CopyHash
+import BSModel.Proofs.CopySettle
 import BSModel.Gen.Copy
 /-! C12 — copies are equal, detached and independent; equality is structural; a copy hashes like its original.
 
@@ -60,6 +61,17 @@ theorem copy_same_shape (inh : Option Bool) (next : Nat) (t c : Node) (n' : Nat)
     (h : copyImpl inh next t = some (c, n')) : shape none c = shape inh t ∧ shape inh c = shape inh t := by
   obtain ⟨rfl, rfl⟩ := copyImpl_some h
   exact ⟨shape_copySpec t inh none next hs (fun _ => rfl), shape_copySpec t inh inh next hs (fun h => h)⟩
+
+/-- **The same without any hypothesis**: for *every* tree, the copy has the shape of the original with each attribute
+    dict re-processed by its own class (`settle`) — which is the original itself whenever its dicts were filled through
+    their own `__setitem__` (`settle_of_settled`), and in general says exactly what the copy of a tampered-with
+    `HTML/XMLAttributeDict` looks like (compared with the real code by the `setitem` stream) -/
+theorem copy_shape_general (inh : Option Bool) (next : Nat) (t c : Node) (n' : Nat)
+    (h : copyImpl inh next t = some (c, n')) : shape none c = shape inh (settle t) ∧ shape inh c = shape inh (settle t) := by
+  obtain ⟨rfl, rfl⟩ := copyImpl_some h
+  exact ⟨shape_copySpec_general t inh none next (fun _ => rfl), shape_copySpec_general t inh inh next (fun h => h)⟩
+
+theorem settle_id (t : Node) (hs : SettledN t) : settle t = t := settle_of_settled t hs
 
 /-- **A copy renders identically** — under `decode` with any formatter, `prettify`, `get_text`, …: every observation that
     reads the tree through its shape gives the same result on the copy (as a root) and on the original (in its context) -/
@@ -459,6 +471,32 @@ theorem copy_hash (render : RShape → PStr) (hsh : PStr → Nat) (inh : Option 
     (hs : SettledN t) (h : copyImpl inh next t = some (c, n')) : hashImpl render hsh none c = hashImpl render hsh inh t := by
   simp only [hashImpl, (copy_same_shape inh next t c n' hs h).1]
 
+/-- `==`, `hash` and the dict invariant are functions of the shape: whatever has the shape of a tree — its copy, a twin
+    parsed from the same markup, the unpickled re-parse — is equal to it and hashes like it -/
+theorem same_shape_eq_and_hash (render : RShape → PStr) (hsh : PStr → Nat) (i j : Option Bool) (a b : Node) (ha : DictOK a)
+    (h : shape i a = shape j b) :
+    eqImpl a b = true ∧ eqImpl b a = true ∧ hashImpl render hsh i a = hashImpl render hsh j b := by
+  have hb := dictOK_of_shape a b i j h ha
+  have hc := canon_of_shape a b i j h
+  exact ⟨(eq_iff_structural a b ha hb).mpr hc, (eq_iff_structural b a hb ha).mpr hc.symm, by simp only [hashImpl, h]⟩
+
+/-- **A copy equals (and hashes like) its original, for every tree**: with the original's dicts re-processed where they
+    were tampered with; `copy_eq`/`copy_hash` below are the case `settle t = t` -/
+theorem copy_eq_general (render : RShape → PStr) (hsh : PStr → Nat) (inh : Option Bool) (next : Nat) (t c : Node) (n' : Nat)
+    (hd : DictOK t) (h : copyImpl inh next t = some (c, n')) :
+    eqImpl (settle t) c = true ∧ eqImpl c (settle t) = true ∧
+      hashImpl render hsh none c = hashImpl render hsh inh (settle t) := by
+  have hsh' := (copy_shape_general inh next t c n' h).1
+  obtain ⟨e1, e2, e3⟩ := same_shape_eq_and_hash render hsh inh none (settle t) c (dictOK_settle t hd) hsh'.symm
+  exact ⟨e1, e2, e3.symm⟩
+
+/-- non-vacuity: a tampered-with `HTMLAttributeDict` (`None` and an `int` put in behind its back) — the copy drops the one
+    and turns the other into its text, exactly as `settle` says -/
+example : (settleAttrs 1 (dA 1 .none).attrs) = [(ofS "id", none, .str 0 (ofS "1"))] ∧
+    settleAttrs 1 (dA 1 (.int 7)).attrs = (dA 1 (.str 0 (ofS "7"))).attrs ∧
+    (copySelf 5 (dA 1 (.int 7)) none).2.1.attrs = (dA 1 (.str 0 (ofS "7"))).attrs := by
+  decide +kernel
+
 /-- **`==` and `hash` agree on attribute order**: permuting the attribute dict changes neither (`==`:
     `attr_order_irrelevant`) -/
 theorem hash_attr_order_irrelevant (render : RShape → PStr) (hsh : PStr → Nat) (inh : Option Bool) (i j : Nat) (d : TagData)
@@ -547,6 +585,36 @@ theorem soup_pickle_info (fresh : Nat) (s : SoupInfo) :
 
 example : soupCopySelf ⟨5, false, false, some 7, some 8, some (ofS "latin-1"), some (ofS "latin-1"), true⟩ =
     ⟨5, false, false, none, none, some (ofS "latin-1"), none, false⟩ := by decide +kernel
+
+/-! ### further non-vacuity: concrete instances of the hypotheses above -/
+
+/-- `attr_order_irrelevant` / `hash_attr_order_irrelevant`: a real permutation of a two-entry dict -/
+example : dP.attrs.Perm dP.attrs.reverse ∧ (dP.attrs.map Prod.fst).Nodup ∧ dP.attrs ≠ dP.attrs.reverse :=
+  ⟨(List.reverse_perm _).symm, nodup_of_b _ (by decide +kernel), by decide +kernel⟩
+example : eqImpl exP (.tag 77 { dP with attrs := dP.attrs.reverse } [.str 3 0 (ofS "t"), .tag 4 dB [], .str 5 5 (ofS "c")]) = true :=
+  attr_order_irrelevant 1 77 dP _ _ (dictOK_of_b _ (by decide +kernel)) (List.reverse_perm _).symm
+/-- `setitem_idempotent`: `True` under a plain key in an `HTMLAttributeDict` becomes the key, which is stored unchanged -/
+example : coerce 1 (ofS "k") none (.bool true) = some (.str 0 (ofS "k")) ∧ ¬ (1 = 1 ∧ AVal.str 0 (ofS "k") = .none) := by
+  decide +kernel
+/-- `old_new_agree`: a tag made without a builder holds an `HTMLAttributeDict` -/
+example : (dA 1 (.str 0 (ofS "v"))).dictCls = (if (some false : Option Bool) == some true then 2 else 1) := by decide +kernel
+/-- `soup_copy_exact`: a document parsed from a `str` without options -/
+example : soupCopySelf ⟨5, false, false, none, none, none, none, false⟩ = ⟨5, false, false, none, none, none, none, false⟩ :=
+  soup_copy_exact _ rfl rfl rfl rfl rfl
+/-- `copy_soup_same_shape`: a pristine root (`fresh` = its own data) over two children -/
+example : ∃ c n', copySoupImpl dB none 10 (.tag 1 dB [.str 2 0 (ofS "t"), .tag 3 dP []]) = some (c, n') ∧
+    shape none c = shape none (.tag 1 dB [.str 2 0 (ofS "t"), .tag 3 dP []]) :=
+  ⟨_, _, copy_soup_refines dB none 10 1 dB _, copy_soup_same_shape dB none 10 1 dB _ _ _ rfl rfl
+    (settledL_of_plain _ (by decide +kernel)) (copy_soup_refines dB none 10 1 dB _)⟩
+/-- `copy_independent_history`: a history on objects of the copy (ids 10..14) and on a later one (99) -/
+example : applyEdits [.setName 10 (ofS "q"), .listAppend 11 (ofS "z"), .insertKid 10 0 (.str 99 0 (ofS "n")), .clear 13,
+    .setAttr 99 (ofS "k") none (.int 1)] exP = exP :=
+  copy_independent_history none 10 exP _ _ (copy_refines none 10 exP) (by decide +kernel) _ (by decide +kernel)
+/-- `same_shape_eq_and_hash` / `copy_eq_general`: the copy of the tree with all kinds of attribute -/
+example : ∃ c n', copyImpl none 20 exN = some (c, n') ∧ eqImpl exN c = true := by
+  refine ⟨_, _, copy_refines none 20 exN, ?_⟩
+  have hs : SettledN exN := settledN_of_plain _ (by decide +kernel)
+  exact (copy_eq none 20 exN _ _ (dictOK_of_b _ (by decide +kernel)) hs (copy_refines none 20 exN)).1
 
 /-! ### pickling a document -/
 
